@@ -148,6 +148,13 @@ def cases(rng, tier):
             t = corrupt(rng, t)
         if rng.random() < 0.15:
             t = t.replace("\n", "\r\n")      # diagnostics must refer to the text as given (line / column under CRLF)
+        if rng.random() < 0.12:
+            # lines that look like directives of WGSL preprocessors (in a comment, or bare): a rejected text is still a PARSE
+            # error carrying the front end's own diagnostic
+            ls_ = t.split("\n")
+            ls_.insert(rng.randrange(len(ls_) + 1), rng.choice(["// #import common::lights", "#import utils", "// #define MAX_LIGHTS 4", "#ifdef SHADOWS",
+                                                                 "/* #include \"a.wgsl\" */", "// #endif", "#define N 4"]))
+            t = "\n".join(ls_)
         texts.append((t, "corrupted"))
     out = []
     for t, fam in texts:
@@ -162,6 +169,12 @@ def cases(rng, tier):
             inc = None if rng.random() < 0.7 else "dir/shader.wgsl"
             for v in (False, True):
                 out.append({"wgsl": t, "family": "capability_sets", "opts": {"validate": v, "caps": caps}, "include": inc})
+    # many calls with DIFFERENT capability sets at the same time (the worker threads of the driver take chunks of four
+    # consecutive cases): each call is judged by its own set, also while other threads validate
+    t = CAPS_SOURCES[3]
+    for k in range(160 if tier != "thorough" else 600):
+        out.append({"wgsl": t + "// concurrent %d\n" % (k // 2), "family": "capability_sets_concurrent",
+                    "opts": {"validate": k % 2 == 1, "caps": ["empty", "all", "all", "empty", "no_push_constant", "all"][(k // 2) % 6]}, "include": None})
     return out
 
 
